@@ -77,4 +77,5 @@ c2be3c9 C07
 e57b5cb C14
 1f17f67 C06
 300dfe4 C19
+69e04a0 C09
 LIST
